@@ -38,7 +38,7 @@ from comb_spec_searcher.strategies.rule import VerificationRule
 ID = "C05"
 QUICK_RUNS = 12000
 CHUNK = 150
-WATCHDOG = 20.0
+WATCHDOG = 45.0
 THOROUGH_BUDGET_S = 600
 LEVEL = "exploration"
 RULE = (
@@ -69,7 +69,18 @@ def gen_rules(rng, n, max_rules=3, p_leaf=0.25):
     return rules
 
 
+SEARCH_FRACTION = 0.06
+
+
 def gen(rng, tier):
+    if rng.random() < SEARCH_FRACTION:
+        from . import search_common as S
+
+        R = S.gen_search(rng, tier, ruledb=rng.choice(["default", "forget"]), flavour="C05")
+        R["layer"] = "search"
+        if rng.random() < 0.4:
+            R["pack"]["iterative"] = True
+        return R
     big = tier == "thorough"
     clock = {"policy": rng.choice(["frozen", "jitter"]), "seed": rng.randrange(1 << 30), "stall": rng.choice([0, 1, 8, 64]), "skew_p": rng.choice([0.0, 0.05])}
     rg = {"policy": rng.choice(["seeded", "seeded", "first", "last"]), "seed": rng.randrange(1 << 30)}
@@ -398,6 +409,10 @@ def exec_ruledb(R, ctx):
 
 
 def execute(R, ctx):
+    if R.get("layer") == "search":
+        from . import search_common as S
+
+        return S.execute_search(R, ctx, focus="C05")
     clock = SimClock(**R["clock"])
     rng = SimRandom(R["rng"]["policy"], R["rng"]["seed"])
     with seams.Installed(clock, rng):
@@ -417,6 +432,11 @@ def execute(R, ctx):
 
 
 def simplify(R):
+    if R["layer"] == "search":
+        from . import search_common as S
+
+        yield from S.simplify_search(R)
+        return
     if R["layer"] == "trees":
         rules = R["rules"]
         for i, (k, rs) in enumerate(rules):
